@@ -305,6 +305,9 @@ func loadDonors() {
 					donors[key] = map[string]any{}
 				}
 				for _, name := range names {
+					if s.Kind(nodes[name]) == "map" {
+						mapMember[key+"\x00"+name] = true
+					}
 					if _, seen := donors[key][name]; !seen && !strings.HasPrefix(name, "$") {
 						donors[key][name] = schemaSample(s, nodes[name])
 						schemaDonors++
@@ -330,6 +333,9 @@ func loadDonors() {
 }
 
 var schemaDonors int
+
+// mapMember: (position, member) pairs whose published type is a map of texts
+var mapMember = map[string]bool{}
 
 // schemaSample is a small instance of a member that survives parse and
 // serialise if the member is read at all: lists carry one element, maps one
@@ -389,6 +395,18 @@ func editsOf(b *base, yield func(Edit) bool) bool {
 			}
 		case "object":
 			m := n.Value.(map[string]any)
+			// a map of texts (extensions, meta) that is present: an entry whose value
+			// is the empty text, added next to the others, is a member added
+			if i := strings.LastIndex(n.Ptr, "/"); i > 0 {
+				name := strings.NewReplacer("~1", "/", "~0", "~").Replace(n.Ptr[i+1:])
+				if mapMember[donorKey(b.tree, n.Ptr[:i])+"\x00"+name] {
+					if _, has := m["zz-empty"]; !has {
+						if !yield(Edit{Doc: b.path, Kind: "add", Ptr: n.Ptr + "/zz-empty", Value: json.RawMessage(`""`)}) {
+							return false
+						}
+					}
+				}
+			}
 			key := donorKey(b.tree, n.Ptr)
 			ks := make([]string, 0)
 			for k := range donors[key] {
@@ -400,6 +418,12 @@ func editsOf(b *base, yield func(Edit) bool) bool {
 			for _, k := range ks {
 				if !yield(Edit{Doc: b.path, Kind: "add", Ptr: n.Ptr + "/" + k, Value: json.RawMessage(jsontree.Encode(donors[key][k]))}) {
 					return false
+				}
+				// a map may hold an entry whose value is the empty text: present is not absent
+				if mapMember[key+"\x00"+k] {
+					if !yield(Edit{Doc: b.path, Kind: "add", Ptr: n.Ptr + "/" + k, Value: json.RawMessage(`{"abc":""}`)}) {
+						return false
+					}
 				}
 			}
 		}
@@ -432,6 +456,9 @@ func judgeEdit2(e Edit, o *vh.Obs) {
 		return
 	}
 	o.Class("edit-" + e.Kind)
+	if string(e.Value) == `{"abc":""}` || string(e.Value) == `""` {
+		o.Class("add-map-entry-with-empty-value")
+	}
 	edited, err := apply(b.tree, e)
 	if err != nil {
 		o.Class("inapplicable")
@@ -768,7 +795,7 @@ func genEdit(t *rapid.T) Edit {
 
 func init() {
 	vh.Describe(
-		"Bases: every example document, enveloped, calculated and valid (quick: a spread of 1 in 7 plus all non-invoice documents for the exhaustive sweep; thorough: all). Exhaustive single edits of the serialised doc: every leaf altered to another value of its type (amounts: digit and precision; percentages; dates; date-times: second, zone designator, fraction; country codes: other codes including the alternative codes of one regime; strings; booleans) - an alteration that is read back as the same content is a blind spot -, every member and element removed, every member that other examples carry at the same position, or that the published schema declares there (a small instance built from the schema: lists with one element, maps with one entry, objects with their required members), added, arrays swapped / shortened / duplicated; plus rapid sampling of edits over all bases, and random content-preserving re-encodings (member order, whitespace, \\u escapes and the two-character escapes of JSON, the solidus among them; for a third the header notes hold characters outside the basic plane, escaped as surrogate pairs), which must validate in the library and through cli.Validate, the entry point of the command line, bulk and HTTP. Oracle: J(x) = JSON of marshal(parse(x).doc); J equal => validates with the same digest; J different => Digest() differs from head.dig, Validate() fails (with the digest key when everything else validates), and after Calculate() the digest equals the original iff J does. Non-trivial: the edit changes J (it is not normalised away by the parser).",
+		"Bases: every example document, enveloped, calculated and valid (quick: a spread of 1 in 7 plus all non-invoice documents for the exhaustive sweep; thorough: all). Exhaustive single edits of the serialised doc: every leaf altered to another value of its type (amounts: digit and precision; percentages; dates; date-times: second, zone designator, fraction; country codes: other codes including the alternative codes of one regime; strings; booleans) - an alteration that is read back as the same content is a blind spot -, every member and element removed, every member that other examples carry at the same position, or that the published schema declares there (a small instance built from the schema: lists with one element, maps with one entry - also one whose value is the empty text, and such an entry added to every map that is present -, objects with their required members), added, arrays swapped / shortened / duplicated; plus rapid sampling of edits over all bases, and random content-preserving re-encodings (member order, whitespace, \\u escapes and the two-character escapes of JSON, the solidus among them; for a third the header notes hold characters outside the basic plane, escaped as surrogate pairs), which must validate in the library and through cli.Validate, the entry point of the command line, bulk and HTTP. Oracle: J(x) = JSON of marshal(parse(x).doc); J equal => validates with the same digest; J different => Digest() differs from head.dig, Validate() fails (with the digest key when everything else validates), and after Calculate() the digest equals the original iff J does. Non-trivial: the edit changes J (it is not normalised away by the parser).",
 		"members the parser does not know are not part of the logical content (they vanish on parse); additions therefore use members other examples carry at the same position or the published schemas declare there",
 	)
 	vh.Enum("edits", enumEdits, judgeEdit)
